@@ -8,7 +8,7 @@ Steps (all in a scratch worktree under /tmp/vfm, removed afterwards; /repo is ne
 """
 import json, os, pathlib, shutil, subprocess, sys, tempfile, time
 
-src, sid, checks = pathlib.Path(sys.argv[1]), sys.argv[2], sys.argv[3].split(",")
+src, sid, checks = pathlib.Path(sys.argv[1]).resolve(), sys.argv[2], sys.argv[3].split(",")
 skip_suite = "--skip-suite" in sys.argv
 os.makedirs("/tmp/vfm", exist_ok=True)
 d = tempfile.mkdtemp(prefix="s", dir="/tmp/vfm"); os.rmdir(d)
@@ -42,11 +42,16 @@ try:
         ran.append(f"./check {c} with change (VERIF_REPO=scratch): exit {rc.returncode}, {len(viol)} VIOLATION lines")
     ok = r0.returncode == 0 and r1.returncode != 0 and (skip_suite or " passed" in suite and "failed" not in suite)
     meta = json.loads((src / "meta.json").read_text()) if (src / "meta.json").exists() else {}
+    if skip_suite:  # keep the record of an earlier full-suite confirmation of this same patch
+        ran += [l + " (earlier run)" for l in meta.get("confirmation", []) if l.startswith("full test suite") and "(earlier run)" not in l] + \
+               [l for l in meta.get("confirmation", []) if l.startswith("full test suite") and "(earlier run)" in l][:1]
+        ok = ok and any(" passed" in l and "failed" not in l for l in ran if l.startswith("full test suite"))
     meta.update({"seed_id": sid, "confirmed": ok, "confirmation": ran, "checks": results,
                  "detected_by": [c for c, r in results.items() if r["exit"] == 1]})
     out = pathlib.Path("/verif/seeded") / sid
     out.mkdir(parents=True, exist_ok=True)
-    shutil.copy(src / "patch.diff", out / "patch.diff"); shutil.copy(demo, out / "demo.py")
+    if out.resolve() != src:
+        shutil.copy(src / "patch.diff", out / "patch.diff"); shutil.copy(demo, out / "demo.py")
     (out / "meta.json").write_text(json.dumps(meta, indent=1) + "\n")
     print(json.dumps({"seed": sid, "confirmed": ok, "suite": suite, "demo_clean": r0.returncode, "demo_changed": r1.returncode, "checks": results}, indent=1))
 finally:
